@@ -41,7 +41,11 @@ impl KnowledgeBase {
     /// Add a rule to the knowledge base
     pub fn add_rule(&self, rule: Rule) -> Result<()> {
         let mut rules = self.rules.write().unwrap();
+        #[cfg(feature = "verif-hooks")]
+        crate::verif_hooks::sched_point(10);
         let mut index = self.rule_index.write().unwrap();
+        #[cfg(feature = "verif-hooks")]
+        crate::verif_hooks::sched_point(11);
         let mut version = self.version.write().unwrap();
 
         // Check for duplicate rule names
@@ -84,7 +88,11 @@ impl KnowledgeBase {
     /// Remove a rule by name
     pub fn remove_rule(&self, rule_name: &str) -> Result<bool> {
         let mut rules = self.rules.write().unwrap();
+        #[cfg(feature = "verif-hooks")]
+        crate::verif_hooks::sched_point(12);
         let mut index = self.rule_index.write().unwrap();
+        #[cfg(feature = "verif-hooks")]
+        crate::verif_hooks::sched_point(13);
         let mut version = self.version.write().unwrap();
 
         if let Some(&position) = index.get(rule_name) {
@@ -106,6 +114,8 @@ impl KnowledgeBase {
     /// Get a rule by name
     pub fn get_rule(&self, rule_name: &str) -> Option<Rule> {
         let rules = self.rules.read().unwrap();
+        #[cfg(feature = "verif-hooks")]
+        crate::verif_hooks::sched_point(20);
         let index = self.rule_index.read().unwrap();
 
         if let Some(&position) = index.get(rule_name) {
@@ -151,7 +161,11 @@ impl KnowledgeBase {
     /// Enable or disable a rule
     pub fn set_rule_enabled(&self, rule_name: &str, enabled: bool) -> Result<bool> {
         let mut rules = self.rules.write().unwrap();
+        #[cfg(feature = "verif-hooks")]
+        crate::verif_hooks::sched_point(14);
         let index = self.rule_index.read().unwrap();
+        #[cfg(feature = "verif-hooks")]
+        crate::verif_hooks::sched_point(15);
         let mut version = self.version.write().unwrap();
 
         if let Some(&position) = index.get(rule_name) {
@@ -170,7 +184,11 @@ impl KnowledgeBase {
     /// Clear all rules
     pub fn clear(&self) {
         let mut rules = self.rules.write().unwrap();
+        #[cfg(feature = "verif-hooks")]
+        crate::verif_hooks::sched_point(16);
         let mut index = self.rule_index.write().unwrap();
+        #[cfg(feature = "verif-hooks")]
+        crate::verif_hooks::sched_point(17);
         let mut version = self.version.write().unwrap();
 
         rules.clear();
